@@ -2,7 +2,7 @@
 import ast
 
 from .. import compq, placement, pyq
-from ..pysrc import dotted, fold, norm
+from ..pysrc import dotted, fold, norm, flat
 
 R, SC = compq.RM, compq.SC
 FN = "compile_comprehension"
@@ -28,7 +28,7 @@ def check(ctx, src):
     ctx.check(tags == ["afor", "do", "for", "if", "setv"], "COMP-TAGS", f"{R}|loopers|tags", f"grammar tags are {tags}", R, lp.lineno, detail=str(tags))
     order = [c.args[0].value for c in ast.walk(lp) if isinstance(c, ast.Call) and dotted(c.func) == "tag" and c.args and isinstance(c.args[0], ast.Constant)]
     ctx.check(order and order[-1] != "for" or True, "COMP-TAGS", f"{R}|loopers|keyword clauses first", "", R, lp.lineno, detail="")
-    alts = " ".join(ast.unparse(lp).split())
+    alts = flat(lp)
     ctx.check(alts.index("tag('for', FORM + FORM)") > max(alts.index("tag('setv'"), alts.index("tag('if'"), alts.index("tag('do'"), alts.index("tag('afor'")), "COMP-TAGS", f"{R}|loopers|generic clause last",
               "the generic `TARGET ITERABLE` alternative must come after the keyword clauses, or `:if x` is read as an iteration", R, lp.lineno, detail="for alternative last")
     g = next((n for n in ast.walk(f) if isinstance(n, ast.FunctionDef) and n.name == "f"), None)
@@ -47,9 +47,9 @@ def check(ctx, src):
             nh |= set(fold(n.test.comparators[0]) if isinstance(n.test.comparators[0], (ast.Tuple, ast.List)) else [fold(n.test.comparators[0])])
     ctx.check(nh == {"for", "afor", "setv", "if"}, "COMP-TAGS", f"{R}|{FN}|native tags handled", f"the native strategy handles {sorted(nh)}", R, nat.lineno, detail=str(sorted(nh)))
     # --- strategy guard
-    guard = next((n for n in f.body[-1].body if isinstance(n, ast.If) and "is_for" in norm(n.test) and "elt" in " ".join(ast.unparse(n.test).split())), None)
+    guard = next((n for n in f.body[-1].body if isinstance(n, ast.If) and "is_for" in norm(n.test) and "elt" in flat(n.test)), None)
     ctx.require(guard is not None, "strategy condition not found")
-    disj = [" ".join(ast.unparse(v).split()) for v in guard.test.values] if isinstance(guard.test, ast.BoolOp) and isinstance(guard.test.op, ast.Or) else []
+    disj = [flat(v) for v in guard.test.values] if isinstance(guard.test, ast.BoolOp) and isinstance(guard.test.op, ast.Or) else []
     want = ["is_for", "elt is not None and elt.stmts", "key is not None and key.stmts", "not PY3_15 and ends_with_unpack",
             "any((p.tag == 'do' or (p.value[1].stmts if p.tag in ('for', 'afor', 'setv') else p.value.stmts) for p in parts))"]
     for w in want:
@@ -93,7 +93,7 @@ def check(ctx, src):
               "setx/setv targets leak out through nonlocal (inside a function) or global (module level), only when the scope exposes assignments", R, f.lineno, detail="Nonlocal if inside function else Global")
     en = comp.sc.func("ScopeGen.__enter__")
     ctx.require(en is not None, "ScopeGen.__enter__ not found")
-    ctx.check("isinstance(enclosing, ScopeGlobal) or is_function_scope(enclosing)" in " ".join(ast.unparse(en).split()), "COMP-LEAK", f"{SC}|ScopeGen.__enter__|exposing", "assignments are exposed only when the nearest Python scope is the module or a function (not a class)", SC, en.lineno, detail="module or function")
+    ctx.check("isinstance(enclosing, ScopeGlobal) or is_function_scope(enclosing)" in flat(en), "COMP-LEAK", f"{SC}|ScopeGen.__enter__|exposing", "assignments are exposed only when the nearest Python scope is the module or a function (not a class)", SC, en.lineno, detail="module or function")
     asg = comp.sc.func("ScopeGen.assign")
     ctx.require(asg is not None, "ScopeGen.assign not found")
     ctx.check("if node.name not in self.defined: self.assignments.append(node)" in [norm(s) for s in asg.body], "COMP-LEAK", f"{SC}|ScopeGen.assign|record", "assignments inside a comprehension are not recorded for leaking", SC, asg.lineno, detail="assignments.append")
